@@ -33,10 +33,8 @@ func checkAgainstRef(tag, src string, doc any, vars exec.Vars, nullLabel string)
 	}
 	nd.Cover(tag)
 	ge := errClass(gerr)
-	if ge == werr && (werr != eNone || sameSeq(got, want, perm)) {
-		return
-	}
-	if nullLabel != "" {
+	ok := ge == werr && (werr != eNone || sameSeq(got, want, perm))
+	if !ok && nullLabel != "" {
 		w2, e2, _, perm2 := refQueryOpt(p.AST, doc, vars, true)
 		if ge == e2 && (e2 != eNone || sameSeq(got, w2, perm2)) {
 			nd.Assert(false, nullLabel)
@@ -47,7 +45,7 @@ func checkAgainstRef(tag, src string, doc any, vars exec.Vars, nullLabel string)
 		nd.Assert(false, tag+"/error-class")
 		return
 	}
-	nd.Assert(false, tag+"/items")
+	nd.Assert(ok, tag+"/items")
 }
 
 func elemSpec() nd.Spec {
